@@ -53,7 +53,7 @@ def gen_ops(tier, r):
         k = r.randrange(2, 12)
         rem = r.randrange(34, md)
         e0 = r.choice([UMAX, UMAX, UMAX - r.randrange(1, 40)])
-        ops.append(("top-dense", f"count {e0 - (md * k + rem)} {e0} 16 {t} {md}"))
+        ops.append(("top-dense", f"count {e0 - (md * k + rem)} {e0} 16 {t} {md} nosqrt"))
     # the largest sieve size with EratBig engaged: multipleIndex needs all 23 bits (one 8 MiB segment = 2.5e8 numbers)
     ops.append(("max-sieve-size", f"count {10**15 + r.randrange(0, 10**6)} {10**15 + 10**6 + r.randrange(0, 10**6)} 8192 1 0"))
     # more than one segment below 2^64-1 (16 KiB sieve = 491520 numbers per segment)
